@@ -76,3 +76,10 @@ CASES += [
     {"name": "allreduce writes back with a full slice", "kind": "twin", "edits": [
         ("quantarhei/core/parallel.py", "            A[...] = B", "            A[:] = B", 1)]},
 ]
+
+CASES += [
+    {"name": "allreduce guarded by the 'in parallel' flag (seeded change of round 5)", "kind": "mutant", "rule": "C20-G", "edits": [
+        ("quantarhei/core/parallel.py", "        # only in parallel_level == 1 we share the work\n        if self.parallel_level != 1:\n            return \n", "        if not self.inparallel:\n            return \n", 1)]},
+    {"name": "reduce acts at every depth", "kind": "mutant", "rule": "C20-G", "edits": [
+        ("quantarhei/core/parallel.py", "        if self.parallel_level != 1:\n            return A\n", "        if self.parallel_level < 1:\n            return A\n", 1)]},
+]
